@@ -38,6 +38,7 @@ type c07Variant struct {
 	PreludeCwd  []string          `json:"prelude_cwd,omitempty"`  // the directory the process stands in during earlier invocation i
 	RelOut      string            `json:"rel_out,omitempty"`      // the observed invocation names its output directory relative to the working directory (-o RelOut); RelOutAbs is where that is
 	RelOutAbs   string            `json:"rel_out_abs,omitempty"`
+	Twins       int               `json:"twins,omitempty"`       // that many other callers of the process generate the same program (own Generator, own backends, own output directory) at the same time
 	SlowPlugin  int               `json:"slow_plugin,omitempty"` // 1 / 2: the first / second plugin takes a few (simulated) seconds before it answers; how fast a plugin is must not show in the output
 	SdkWd       string            `json:"sdk_wd,omitempty"`      // the observed invocation is sdk.RunThriftgoAsSDK(SdkWd, ...); its baseline is the same call with nothing before it
 }
@@ -110,6 +111,14 @@ func (p *c07Pair) spec(v *c07Variant) *simrt.Spec {
 	if v.RelOut != "" {
 		cc.OutDir = v.RelOut
 	}
+	for k := 0; k < v.Twins; k++ {
+		inv := []string{"thriftgo", "-g", p.Cfg.gArg()}
+		if p.Cfg.Rec {
+			inv = append(inv, "-r")
+		}
+		inv = append(inv, p.Extra...)
+		cc.Twins = append(cc.Twins, append(inv, "-o", fmt.Sprintf("/concurrent/out%d", k), p.Main))
+	}
 	if len(v.Prelude) > 0 {
 		cc.Prelude = append(append([][]string{}, p.PreInv...), v.Prelude...)
 		if len(v.PreludeWd) > 0 {
@@ -151,6 +160,9 @@ func (p *c07Pair) spec(v *c07Variant) *simrt.Spec {
 	if v.Clock != 0 {
 		sp.ClockOffset = v.Clock
 		sp.Pid = 1000 + int(uint64(v.Clock)%30000)
+	}
+	if v.Twins > 0 {
+		sp.StepBudget = 6000000
 	}
 	sp.Parallelism = v.Parallelism
 	if sp.Parallelism == 0 {
@@ -447,6 +459,10 @@ func c07Check(a *artefacts, tier string, seed uint64, replay string) int {
 		if tv := c07TwinEarlier(pr, pair); tv != nil && i%3 == 2 {
 			vars = append(vars, tv)
 		}
+		if i%6 == 4 && !pair.Plugin {
+			// other callers of the process generate the same program at the same time, each with objects of its own
+			vars = append(vars, &c07Variant{Name: "concurrent-generations", MapMode: "sorted", Strategy: []string{"random", "pct", "random"}[pr.Intn(3)], SchedSeed: pr.Uint64(), PoolSeed: pr.Uint64(), Parallelism: 1 + pr.Intn(4), Twins: 1 + pr.Intn(2)})
+		}
 		nontrivial := false
 		foundHere := map[string]bool{}
 		for _, v := range vars {
@@ -736,6 +752,7 @@ func c07Isolate(a *artefacts, f *c07Found) []*c07Found {
 	try(func(w *c07Variant) { w.PreludeWd = nil })
 	try(func(w *c07Variant) { w.PreludeCwd = nil })
 	try(func(w *c07Variant) { w.SlowPlugin = 0 })
+	try(func(w *c07Variant) { w.Twins = 0 })
 	try(func(w *c07Variant) { w.Stale = false })
 	try(func(w *c07Variant) { w.Clock = 0 })
 	try(func(w *c07Variant) { w.OutDir = "" })
@@ -758,6 +775,9 @@ func c07Isolate(a *artefacts, f *c07Found) []*c07Found {
 		}
 		if v.SlowPlugin != 0 {
 			d = append(d, "plugin-pace")
+		}
+		if v.Twins != 0 {
+			d = append(d, "concurrent-generations")
 		}
 		if v.Stale {
 			d = append(d, "stale-output")
